@@ -271,12 +271,23 @@ def make_case(rng, k, M):
               'lons_deg': np.rad2deg(c.lons).round(9).tolist(),
               'n_state': c.n_state, 'n_integ': c.n_integ}
     c.error = None
+    before = [np.array(x, copy=True) for x in [c.lats, c.lons] + c.state + c.integ]
     try:
         c.out = run_gridder(grid_mod.Gridder, c.lat_g, c.lon_g, c.alt_g, c.tim_g, c.lats,
                             c.lons, c.alts, c.times, c.state, c.integ)
     except Exception as e:  # noqa: BLE001
         c.error = f'{type(e).__name__}: {str(e)[:200]}'
         return c
+    after = [c.lats, c.lons] + c.state + c.integ
+    c.input_mutated = [i for i, (a, b) in enumerate(zip(before, after))
+                       if not np.array_equal(a, b)]
+    # the same arrays gridded again must give the same answer (a trajectory is a value)
+    c.regrid_differs = False
+    if rng.random() < 0.3:
+        out2 = run_gridder(grid_mod.Gridder, c.lat_g, c.lon_g, c.alt_g, c.tim_g, c.lats,
+                           c.lons, c.alts, c.times, c.state, c.integ)
+        c.regrid_differs = any(len(a) != len(b) or not np.allclose(a, b, rtol=1e-12, atol=0)
+                               for a, b in zip(c.out[5], out2[5]))
     cl, co, ca, ct, sv, iv = c.out
     c.len_ok = (len(cl) == len(co) and (ca is None or len(ca) == len(cl))
                 and (ct is None or len(ct) == len(cl))
